@@ -127,26 +127,67 @@ theorem setitem_lookup_self {c : Cache K V} (hi : Inv c) (k : K) (v : V) :
       · rename_i hr; exact absurd hr (evict_ring_nonempty hi hfull)
       · exact lookup_dset_self _ _ _
 
-/-- a lookup of an absent key with on_miss configured: one miss, no soft miss, on_miss is called
-    once with that key, its result is returned and cached -/
-theorem step_lookup_onMiss {c : Cache K V} (hi : Inv c) {op : Op K V} {k : K} {f : K → V}
-    (hop : op.lookupKey = some k) (hk : lookup k c.d = none) (hom : c.onMiss = some f) :
-    (step c op).2 = .val (f k) ∧ (step c op).1.hit = c.hit ∧ (step c op).1.miss = c.miss + 1 ∧
+/-- a lookup of an absent key with on_miss configured, on_miss returning `v`: one miss, no soft
+    miss, on_miss is called once with that key, its result is returned and cached -/
+theorem step_lookup_onMiss {c : Cache K V} (hi : Inv c) {op : Op K V} {k : K} {f : K → OmRes V} {v : V}
+    (hop : op.lookupKey = some k) (hk : lookup k c.d = none) (hom : c.onMiss = some f) (hf : f k = .ret v) :
+    (step c op).2 = .val v ∧ (step c op).1.hit = c.hit ∧ (step c op).1.miss = c.miss + 1 ∧
     (step c op).1.soft = c.soft ∧ (step c op).1.omLog = c.omLog ++ [k] ∧
-    lookup k (step c op).1.d = some (f k) := by
+    lookup k (step c op).1.d = some v := by
   have hr : lookup k c.ring = none := by rw [← hi.sync.agree, hk]
   have hi' : Inv ({ c with miss := c.miss + 1, omLog := c.omLog ++ [k] } : Cache K V) :=
     ⟨hi.sync, hi.cap, hi.pos, Nat.le_succ_of_le hi.soft_le⟩
   cases op with
   | getitem k' =>
     simp [Op.lookupKey] at hop; subst hop
-    simp [step, Cache.getitem_onMiss hr hom, setitem_lookup_self hi']
+    simp [step, Cache.getitem_onMiss hr hom hf, setitem_lookup_self hi']
   | get k' d =>
     simp [Op.lookupKey] at hop; subst hop
-    simp [step, Cache.getitem_onMiss hr hom, setitem_lookup_self hi']
+    simp [step, Cache.getitem_onMiss hr hom hf, setitem_lookup_self hi']
   | setdefault k' d =>
     simp [Op.lookupKey] at hop; subst hop
-    simp [step, Cache.getitem_onMiss hr hom, setitem_lookup_self hi']
+    simp [step, Cache.getitem_onMiss hr hom hf, setitem_lookup_self hi']
+  | _ => simp [Op.lookupKey] at hop
+
+/-- on_miss raises KeyError for the absent key: still one miss and one on_miss call; `c[k]` raises
+    KeyError and caches nothing; get / setdefault swallow the KeyError, answer with the caller's
+    default and count a soft miss (setdefault also stores the default) -/
+theorem step_lookup_onMiss_keyError {c : Cache K V} (hi : Inv c) {op : Op K V} {k : K} {f : K → OmRes V}
+    (hop : op.lookupKey = some k) (hk : lookup k c.d = none) (hom : c.onMiss = some f) (hf : f k = .keyError) :
+    (step c op).2 = (match op.dflt with | some d => .val d | none => .keyError) ∧
+    (step c op).1.hit = c.hit ∧ (step c op).1.miss = c.miss + 1 ∧
+    (step c op).1.soft = c.soft + (if op.dflt.isSome then 1 else 0) ∧
+    (step c op).1.omLog = c.omLog ++ [k] := by
+  have hr : lookup k c.ring = none := by rw [← hi.sync.agree, hk]
+  cases op with
+  | getitem k' =>
+    simp [Op.lookupKey] at hop; subst hop
+    simp [step, Cache.getitem_onMiss_keyError hr hom hf, Op.dflt]
+  | get k' d =>
+    simp [Op.lookupKey] at hop; subst hop
+    simp [step, Cache.getitem_onMiss_keyError hr hom hf, Op.dflt]
+  | setdefault k' d =>
+    simp [Op.lookupKey] at hop; subst hop
+    simp [step, Cache.getitem_onMiss_keyError hr hom hf, Op.dflt]
+  | _ => simp [Op.lookupKey] at hop
+
+/-- on_miss raises another exception for the absent key: it propagates out of `c[k]`, get and
+    setdefault alike; one miss, one on_miss call, no soft miss, contents unchanged -/
+theorem step_lookup_onMiss_error {c : Cache K V} (hi : Inv c) {op : Op K V} {k : K} {f : K → OmRes V}
+    (hop : op.lookupKey = some k) (hk : lookup k c.d = none) (hom : c.onMiss = some f) (hf : f k = .error) :
+    (step c op).2 = .raised ∧ (step c op).1.hit = c.hit ∧ (step c op).1.miss = c.miss + 1 ∧
+    (step c op).1.soft = c.soft ∧ (step c op).1.omLog = c.omLog ++ [k] ∧ (step c op).1.d = c.d := by
+  have hr : lookup k c.ring = none := by rw [← hi.sync.agree, hk]
+  cases op with
+  | getitem k' =>
+    simp [Op.lookupKey] at hop; subst hop
+    simp [step, Cache.getitem_onMiss_error hr hom hf]
+  | get k' d =>
+    simp [Op.lookupKey] at hop; subst hop
+    simp [step, Cache.getitem_onMiss_error hr hom hf]
+  | setdefault k' d =>
+    simp [Op.lookupKey] at hop; subst hop
+    simp [step, Cache.getitem_onMiss_error hr hom hf]
   | _ => simp [Op.lookupKey] at hop
 
 /-- a lookup of an absent key without on_miss: one miss; `c[k]` raises KeyError; get / setdefault
@@ -282,7 +323,7 @@ theorem wstep_others (w : List (Cache K V)) (i : Nat) (op : Op K V) (j : Nat) (h
 
 
 /-! class, capacity and on_miss never change -/
-def Cache.config (c : Cache K V) : Bool × Nat × Option (K → V) := (c.lru, c.max, c.onMiss)
+def Cache.config (c : Cache K V) : Bool × Nat × Option (K → OmRes V) := (c.lru, c.max, c.onMiss)
 
 omit [DecidableEq V] in
 @[simp] theorem setitem_config (c : Cache K V) (k : K) (v : V) : (c.setitem k v).config = c.config := by
@@ -302,7 +343,10 @@ theorem getitem_config (c : Cache K V) (k : K) : (c.getitem k).1.config = c.conf
   · rfl
   · split
     · rfl
-    · simp [Cache.config]
+    · split
+      · simp [Cache.config]
+      · rfl
+      · rfl
 
 theorem step_config (c : Cache K V) (op : Op K V) : (step c op).1.config = c.config := by
   cases op with
@@ -346,7 +390,9 @@ theorem step_copy_config (c : Cache K V) (op : Op K V) {c' n : Cache K V}
     simp only [step] at h; unfold Cache.getitem at h
     split at h
     · simp at h
-    · split at h <;> simp at h
+    · split at h
+      · simp at h
+      · split at h <;> simp at h
   | delitem k => simp only [step] at h; split at h <;> simp at h
   | get k d =>
     simp only [step] at h
@@ -356,7 +402,9 @@ theorem step_copy_config (c : Cache K V) (op : Op K V) {c' n : Cache K V}
       unfold Cache.getitem at h hne
       split at h
       · simp at h
-      · split at h <;> simp at h
+      · split at h
+        · simp at h
+        · split at h <;> simp at h
   | setdefault k d =>
     simp only [step] at h
     split at h
@@ -365,7 +413,9 @@ theorem step_copy_config (c : Cache K V) (op : Op K V) {c' n : Cache K V}
       unfold Cache.getitem at h hne
       split at h
       · simp at h
-      · split at h <;> simp at h
+      · split at h
+        · simp at h
+        · split at h <;> simp at h
   | update e kw => simp [step] at h
   | ior e => simp [step] at h
   | pop k d => simp only [step] at h; split at h; simp at h; split at h <;> simp at h
@@ -377,7 +427,7 @@ theorem step_copy_config (c : Cache K V) (op : Op K V) {c' n : Cache K V}
   | eq o => simp [step] at h
   | ne o => simp [step] at h
 
-theorem wstep_config {w : List (Cache K V)} {cfg : Bool × Nat × Option (K → V)}
+theorem wstep_config {w : List (Cache K V)} {cfg : Bool × Nat × Option (K → OmRes V)}
     (h : ∀ c ∈ w, c.config = cfg) (op : WOp K V) : ∀ c ∈ (wstep w op).1, c.config = cfg := by
   cases op with
   | on i op =>
@@ -403,7 +453,7 @@ theorem wstep_config {w : List (Cache K V)} {cfg : Bool × Nat × Option (K → 
   | eqc i j => simp only [wstep]; split <;> exact h
   | nec i j => simp only [wstep]; split <;> exact h
 
-theorem wrun_config {w : List (Cache K V)} {cfg : Bool × Nat × Option (K → V)}
+theorem wrun_config {w : List (Cache K V)} {cfg : Bool × Nat × Option (K → OmRes V)}
     (h : ∀ c ∈ w, c.config = cfg) (ops : List (WOp K V)) : ∀ c ∈ wrun w ops, c.config = cfg := by
   unfold wrun
   induction ops generalizing w with
